@@ -217,6 +217,24 @@ func init() {
 		reg(&explore.Suite{Name: fmt.Sprintf("regained5-d%d", d), Cfg: sim.Config{Voters: 5}, Seed: seedRegained5,
 			Budget: sim.Budget{Timeouts: 1, Elapses: 1, Beats: 2, Writes: 1, Reorders: -1, Splits: 1, Deviations: d}})
 	}
+	// S-regained-elect (5 voters): after S-regained the leader n0 (term 3) has
+	// replicated its no-op and one write to n3 only (2 of 5 copies: nothing is
+	// committed); n0 and n3 are then cut off and n1 wins term 4 with n2 and n4.
+	regainedElect := append(append([]sim.Event{}, seedRegained5...), sim.MustParse("rt 0>3:AE#5", "write n0", "rt 0>3:AE#6", "isolate n0", "isolate n3",
+		"timeout n1", "rt 1>2:RV#0 a=2", "rt 1>4:RV#0 a=2", "rt 1>2:RV#1", "rt 1>4:RV#1")...)
+	for d := 0; d <= 4; d++ {
+		reg(&explore.Suite{Name: fmt.Sprintf("regainedelect5-d%d", d), Cfg: sim.Config{Voters: 5}, Seed: regainedElect,
+			Budget: sim.Budget{Timeouts: 1, Elapses: 1, Beats: 2, Writes: 1, Cuts: 1, Reorders: -1, Splits: 1, Deviations: d}})
+	}
+	// S-stoprestart (C03): the cut-off leader n0 had two submissions in flight
+	// when its application stopped and restarted the same instance (the clients
+	// still hold the futures); n1 leads term 2 with n2; the partition has healed.
+	stopRestart := append(append([]sim.Event{}, seedLeader3...), sim.MustParse("isolate n0", "write n0", "write n0", "api n0 Stop", "api n0 Restart",
+		"timeout n1", "rt 1>2:RV#0 a=2", "rt 1>2:RV#1", "rt 1>2:AE#0", "rt 1>2:AE#1", "heal")...)
+	for d := 0; d <= 4; d++ {
+		reg(&explore.Suite{Name: fmt.Sprintf("stoprestart3-d%d", d), Cfg: sim.Config{Voters: 3}, Seed: stopRestart,
+			Budget: sim.Budget{Timeouts: 1, Elapses: 1, Beats: 2, Writes: 2, Cuts: 1, Reorders: -1, Splits: 1, ClientTimeouts: 1, Deviations: d}})
+	}
 	for n := 2; n <= 4; n++ {
 		for d := 0; d <= 5; d++ {
 			// partitions: isolate / heal any node
